@@ -206,10 +206,19 @@ impl QueryNode {
 
             // Pin chunks to prevent GC during query execution (RAII guard unpins on drop)
             let chunk_paths: Vec<String> = chunks.iter().map(|c| c.chunk_path.clone()).collect();
-            let _pin_guard = self
-                .pin_registry
-                .as_ref()
-                .map(|r| r.pin(chunk_paths.clone()));
+            // (a chunk the garbage collector is deleting right now cannot be pinned: it left the
+            // catalog at least one grace period ago, so the chunk list used above was stale)
+            let _pin_guard = match self.pin_registry.as_ref() {
+                Some(registry) => {
+                    Some(registry.try_pin(chunk_paths.clone()).map_err(|gone| {
+                        Error::Query(format!(
+                            "{} selected chunk(s) are being garbage-collected (stale chunk list); retry the query",
+                            gone.len()
+                        ))
+                    })?)
+                }
+                None => None,
+            };
 
             // Map metadata-selected chunks into the logical `metrics` table used by SQL.
             // Execute query with or without adaptive indexing while holding a stable
